@@ -690,9 +690,12 @@ class LogicalLinkController(object):
                 log.debug("can't dispatch PDU %s", rcvd_pdu)
 
     def resolve(self, name):
+        sap = self.sap[1]
+        if sap is None:
+            return None  # link terminated
         if isinstance(name, (bytes, bytearray)):
-            return self.sap[1].resolve(bytes(name))
-        return self.sap[1].resolve(name.encode('latin'))
+            return sap.resolve(bytes(name))
+        return sap.resolve(name.encode('latin'))
 
     def socket(self, socket_type):
         if socket_type == RAW_ACCESS_POINT:
